@@ -94,7 +94,7 @@ man = {
     "kind_free_text": "Rust harness (path dependency on /repo): proptest 1.11 used as a library (sharded runners, fixed seeds, shrinking), exhaustive/seeded enumerators on rayon, independent reference models (CRC-24Q, bit reader/writer, frame predicate, stream scanner, serde value tree)"},
  ],
  "checks": [],
- "notes": "All commands run from /verif. ./run <id> quick|thorough rebuilds the harness against /repo's working tree with the hook cfg on (cargo fingerprints the path dependency), replays the saved failing inputs of earlier findings (regressions/<id>/), runs the generated-input check and, in the thorough tier, the libFuzzer campaigns (fuzz/campaign). VERIF_SEED seeds every generator. Exit 0 held, 1 VIOLATION line printed, 2 infrastructure/inconclusive (build failure, watchdog, non-reproducing fuzz artefact) - never a violation. known_findings.txt: nine findings, all fixed in /repo by fix: commits, none open. seeded/: 179 independently written changes (ten rounds) that break a property while passing the test suite, with the checks that catch them (DESIGN.md section 10); ./run_noevidence is the evidence-free runner used with them.",
+ "notes": "All commands run from /verif. ./run <id> quick|thorough rebuilds the harness against /repo's working tree with the hook cfg on (cargo fingerprints the path dependency), replays the saved failing inputs of earlier findings (regressions/<id>/), runs the generated-input check and, in the thorough tier, the libFuzzer campaigns (fuzz/campaign). VERIF_SEED seeds every generator. Exit 0 held, 1 VIOLATION line printed, 2 infrastructure/inconclusive (build failure, watchdog, non-reproducing fuzz artefact) - never a violation. known_findings.txt: nine findings, all fixed in /repo by fix: commits, none open. seeded/: 183 independently written changes (ten rounds and a last four) that break a property while passing the test suite, with the checks that catch them (DESIGN.md section 10); ./run_noevidence is the evidence-free runner used with them.",
  "not_applicable": [],
 }
 for cid in sorted(CHECKS):
